@@ -253,3 +253,6 @@ OUTSIDE = ["assemblies with more than 4 fragments (the scan is a plain double lo
            "the wording of the report beyond: one 'Overlap:' block per pair, naming two intersecting same-named fragments, written to stderr"]
 TRUSTED = ["CrossHair/z3", "integer tokens for str()/int() of coordinates in Fragment.__str__, format_agp and parse_agp (loader)",
            "click.echo replaced by a recorder with the same signature"]
+
+TECHNIQUE = ("symbolic execution (CrossHair + z3) of the interval predicates over four unbounded coordinates and of the all-against-all scan / report with symbolic names")
+LEVEL_TEXT = ("Predicate consistency is decided for all integer intervals; the scan for all coordinates and name assignments of 3-4 fragments.")
